@@ -56,6 +56,10 @@ Lemma G_alias c qc ts alias : G ts -> G (alias_toks c qc ts alias).
 Proof. intros H. destruct alias; cbn [alias_toks]; [|exact H]. apply G_snoc; [exact H|]. destruct (askw c); reflexivity. Qed.
 Lemma G_tparen b ts : G ts -> G (tparen b ts).
 Proof. intros H. destruct b; cbn [tparen]; [|exact H]. apply G_cons_text. apply G_snoc; [exact H|reflexivity]. Qed.
+Lemma G_topnd sl t ts : G ts -> G (topnd sl t ts).
+Proof. apply G_tparen. Qed.
+Lemma sq_opc sl t c : sq (opc sl t c) = sq c.
+Proof. unfold opc. destruct (operand_parens sl (okind_of t) && negb operand_keeps_subc); reflexivity. Qed.
 Lemma G_tjoin sep l : ssafe sep = true -> all_G l -> G (tjoin sep l).
 Proof.
   intros Hs. induction l as [|x r IH]; intros H; [apply G_nil|]. destruct H as [Hx Hr]. destruct r as [|y r'].
@@ -90,34 +94,39 @@ Proof.
   - (* TValRaw *) intros txt alias c ts Hq H. inversion H; subst. apply G_alias, G_num.
   - (* TLit *) intros raw alias c ts Hq H. cbn [toks] in H. leaf H.
   - (* TParam *) intros txt c ts Hq H. cbn [toks] in H. leaf H.
-  - (* TNeg *) intros t IH c ts Hq H. cbn [toks] in H. inv_bind H. inversion H; subst. apply G_cons_text. (eapply IH; [ | eassumption]; first [exact Hq | reflexivity]).
+  - (* TNeg *) intros t IH c ts Hq H. cbn [toks] in H. inv_bind H. inversion H; subst. apply G_cons_text.
+    apply G_tparen, G_topnd. (eapply IH; [ | eassumption]; first [exact Hq | reflexivity | rewrite sq_opc; exact Hq]).
   - (* TArith *) intros op l IHl r IHr alias c ts Hq H. cbn [toks] in H. inv_bind H.
     destruct (wa c); inversion H; subst; try apply G_alias;
-      (apply G_sep; [apply G_tparen; (eapply IHl; [ | eassumption]; first [exact Hq | reflexivity]) | apply aop_ssafe | apply G_tparen; (eapply IHr; [ | eassumption]; first [exact Hq | reflexivity])]).
+      (apply G_sep; [apply G_tparen, G_topnd; (eapply IHl; [ | eassumption]; first [exact Hq | reflexivity | rewrite sq_opc; exact Hq])
+                    | apply aop_ssafe
+                    | apply G_tparen, G_topnd; (eapply IHr; [ | eassumption]; first [exact Hq | reflexivity | rewrite sq_opc; exact Hq])]).
   - (* TBasic *) intros cm l IHl r IHr alias c ts Hq H. cbn [toks] in H. inv_bind H.
     destruct (wa c); inversion H; subst; try apply G_alias;
-      (apply G_sep; [(eapply IHl; [ | eassumption]; first [exact Hq | reflexivity]) | apply cmp_ssafe | (eapply IHr; [ | eassumption]; first [exact Hq | reflexivity])]).
+      (apply G_sep; [apply G_topnd; (eapply IHl; [ | eassumption]; first [exact Hq | reflexivity | rewrite sq_opc; exact Hq])
+                    | apply cmp_ssafe
+                    | apply G_topnd; (eapply IHr; [ | eassumption]; first [exact Hq | reflexivity | rewrite sq_opc; exact Hq])]).
   - (* TCplx *) intros bo l IHl r IHr alias c ts Hq H. cbn [toks] in H. inv_bind H. inversion H; subst.
-    apply G_tparen. apply G_sep; [(eapply IHl; [ | eassumption]; first [exact Hq | reflexivity]) | reflexivity | (eapply IHr; [ | eassumption]; first [exact Hq | reflexivity])].
+    apply G_tparen. apply G_sep; [(eapply IHl; [ | eassumption]; first [exact Hq | reflexivity | rewrite sq_opc; exact Hq]) | reflexivity | (eapply IHr; [ | eassumption]; first [exact Hq | reflexivity | rewrite sq_opc; exact Hq])].
   - (* TIn *) intros t IHt cont IHc negated alias c ts Hq H. cbn [toks] in H. inv_bind H. inversion H; subst.
-    apply G_alias. apply G_sep; [(eapply IHt; [ | eassumption]; first [exact Hq | reflexivity]) | reflexivity | (eapply IHc; [ | eassumption]; first [exact Hq | reflexivity])].
+    apply G_alias. apply G_sep; [apply G_topnd; (eapply IHt; [ | eassumption]; first [exact Hq | reflexivity | rewrite sq_opc; exact Hq]) | reflexivity | (eapply IHc; [ | eassumption]; first [exact Hq | reflexivity | rewrite sq_opc; exact Hq])].
   - (* TBetween *) intros t IHt lo IHlo hi IHhi alias c ts Hq H. cbn [toks] in H. inv_bind H. inversion H; subst.
-    apply G_alias. apply G_sep; [(eapply IHt; [ | eassumption]; first [exact Hq | reflexivity]) | reflexivity |].
-    apply G_sep; [(eapply IHlo; [ | eassumption]; first [exact Hq | reflexivity]) | reflexivity | (eapply IHhi; [ | eassumption]; first [exact Hq | reflexivity])].
+    apply G_alias. apply G_sep; [apply G_topnd; (eapply IHt; [ | eassumption]; first [exact Hq | reflexivity | rewrite sq_opc; exact Hq]) | reflexivity |].
+    apply G_sep; [apply G_topnd; (eapply IHlo; [ | eassumption]; first [exact Hq | reflexivity | rewrite sq_opc; exact Hq]) | reflexivity | apply G_topnd; (eapply IHhi; [ | eassumption]; first [exact Hq | reflexivity | rewrite sq_opc; exact Hq])].
   - (* TBitAnd *) intros t IHt v alias c ts Hq H. cbn [toks] in H. inv_bind H. inversion H; subst.
-    apply G_alias, G_cons_text. apply G_snoc; [(eapply IHt; [ | eassumption]; first [exact Hq | reflexivity]) | reflexivity].
+    apply G_alias, G_cons_text. apply G_snoc; [(eapply IHt; [ | eassumption]; first [exact Hq | reflexivity | rewrite sq_opc; exact Hq]) | reflexivity].
   - (* TIsNull *) intros t IHt alias c ts Hq H. cbn [toks] in H. inv_bind H. inversion H; subst.
-    apply G_alias. apply G_snoc; [(eapply IHt; [ | eassumption]; first [exact Hq | reflexivity]) | reflexivity].
+    apply G_alias. apply G_snoc; [apply G_topnd; (eapply IHt; [ | eassumption]; first [exact Hq | reflexivity | rewrite sq_opc; exact Hq]) | reflexivity].
   - (* TNotNull *) intros t IHt alias c ts Hq H. cbn [toks] in H. inv_bind H. inversion H; subst.
-    apply G_alias. apply G_snoc; [(eapply IHt; [ | eassumption]; first [exact Hq | reflexivity]) | reflexivity].
+    apply G_alias. apply G_snoc; [apply G_topnd; (eapply IHt; [ | eassumption]; first [exact Hq | reflexivity | rewrite sq_opc; exact Hq]) | reflexivity].
   - (* TNot *) intros t IHt alias c ts Hq H. cbn [toks] in H. inv_bind H. inversion H; subst.
-    apply G_alias, G_cons_text. (eapply IHt; [ | eassumption]; first [exact Hq | reflexivity]).
+    apply G_alias, G_cons_text. (eapply IHt; [ | eassumption]; first [exact Hq | reflexivity | rewrite sq_opc; exact Hq]).
   - (* TAll *) intros t IHt alias c ts Hq H. cbn [toks] in H. inv_bind H. inversion H; subst.
-    apply G_alias. apply G_snoc; [(eapply IHt; [ | eassumption]; first [exact Hq | reflexivity]) | reflexivity].
+    apply G_alias. apply G_snoc; [(eapply IHt; [ | eassumption]; first [exact Hq | reflexivity | rewrite sq_opc; exact Hq]) | reflexivity].
   - (* TEmpty *) intros c ts Hq H. discriminate H.
   - (* TCase *) intros ws IHw els IHe alias c ts Hq H. cbn [toks] in H. destruct ws as [|cr v r]; [discriminate|].
     destruct (toks_whens (set_wa c false) (WCons cr v r)) as [cs|] eqn:Ew; cbn [bind] in H; [|discriminate].
-    assert (Hcs : all_G cs) by ((eapply IHw; [ | eassumption]; first [exact Hq | reflexivity])).
+    assert (Hcs : all_G cs) by ((eapply IHw; [ | eassumption]; first [exact Hq | reflexivity | rewrite sq_opc; exact Hq])).
     assert (Hj : G (tjoin " " cs)) by (apply G_tjoin; [reflexivity|exact Hcs]).
     destruct els as [|t'].
     + cbn [bind] in H. assert (Hs : G (CText "CASE " :: tjoin " " cs ++ [] ++ [CText " END"])%list).
@@ -125,17 +134,17 @@ Proof.
       destruct (wa c); inversion H; subst; [apply G_alias|]; exact Hs.
     + cbn in IHe. destruct (toks (set_wa c false) t') as [e|] eqn:Ee; cbn [bind] in H; [|discriminate].
       assert (Hs : G (CText "CASE " :: tjoin " " cs ++ (CText " ELSE " :: e) ++ [CText " END"])%list).
-      { apply G_cons_text. apply G_sep; [exact Hj | reflexivity |]. apply G_snoc; [(eapply IHe; [ | eassumption]; first [exact Hq | reflexivity]) | reflexivity]. }
+      { apply G_cons_text. apply G_sep; [exact Hj | reflexivity |]. apply G_snoc; [(eapply IHe; [ | eassumption]; first [exact Hq | reflexivity | rewrite sq_opc; exact Hq]) | reflexivity]. }
       destruct (wa c); inversion H; subst; [apply G_alias|]; exact Hs.
   - (* TFunc *) intros name args IHa special alias c ts Hq H. cbn [toks] in H. inv_bind H.
     destruct (wa c); inversion H; subst; try apply G_alias;
       (apply G_cons_text; apply G_snoc;
-        [apply G_tjoin; [reflexivity|]; (eapply IHa; [ | eassumption]; first [exact Hq | reflexivity]) | destruct special; reflexivity]).
+        [apply G_tjoin; [reflexivity|]; (eapply IHa; [ | eassumption]; first [exact Hq | reflexivity | rewrite sq_opc; exact Hq]) | destruct special; reflexivity]).
   - (* TTuple *) intros vs IHv alias c ts Hq H. cbn [toks] in H. inv_bind H. inversion H; subst.
-    apply G_alias, G_cons_text. apply G_snoc; [|reflexivity]. apply G_tjoin; [reflexivity|]. (eapply IHv; [ | eassumption]; first [exact Hq | reflexivity]).
+    apply G_alias, G_cons_text. apply G_snoc; [|reflexivity]. apply G_tjoin; [reflexivity|]. (eapply IHv; [ | eassumption]; first [exact Hq | reflexivity | rewrite sq_opc; exact Hq]).
   - (* TArray *) intros vs IHv alias c ts Hq H. cbn [toks] in H.
     destruct (toks_list c vs) as [ss|] eqn:Es; cbn [bind] in H; [|discriminate]. inversion H; subst.
-    apply G_alias. assert (Hj : G (tjoin "," ss)) by (apply G_tjoin; [reflexivity|]; (eapply IHv; [ | eassumption]; first [exact Hq | reflexivity])).
+    apply G_alias. assert (Hj : G (tjoin "," ss)) by (apply G_tjoin; [reflexivity|]; (eapply IHv; [ | eassumption]; first [exact Hq | reflexivity | rewrite sq_opc; exact Hq])).
     destruct (is_pg (dia c)); [destruct (all_empty (tjoin "," ss))|].
     + apply G_text.
     + apply G_cons_text. apply G_snoc; [exact Hj|reflexivity].
@@ -143,11 +152,11 @@ Proof.
   - (* TSub *) intros col tb alias c ts Hq H. cbn [toks] in H. leaf H.
   - (* TNil *) intros c tss Hq H. inversion H; subst. exact I.
   - (* TCons *) intros t IHt r IHr c tss Hq H. cbn [toks_list] in H. inv_bind H. inversion H; subst.
-    split; [(eapply IHt; [ | eassumption]; first [exact Hq | reflexivity]) | (eapply IHr; [ | eassumption]; first [exact Hq | reflexivity])].
+    split; [(eapply IHt; [ | eassumption]; first [exact Hq | reflexivity | rewrite sq_opc; exact Hq]) | (eapply IHr; [ | eassumption]; first [exact Hq | reflexivity | rewrite sq_opc; exact Hq])].
   - (* WNil *) intros c tss Hq H. inversion H; subst. exact I.
   - (* WCons *) intros cr IHc v IHv r IHr c tss Hq H. cbn [toks_whens] in H. inv_bind H. inversion H; subst.
-    split; [|(eapply IHr; [ | eassumption]; first [exact Hq | reflexivity])].
-    apply G_cons_text. apply G_sep; [(eapply IHc; [ | eassumption]; first [exact Hq | reflexivity]) | reflexivity | (eapply IHv; [ | eassumption]; first [exact Hq | reflexivity])].
+    split; [|(eapply IHr; [ | eassumption]; first [exact Hq | reflexivity | rewrite sq_opc; exact Hq])].
+    apply G_cons_text. apply G_sep; [(eapply IHc; [ | eassumption]; first [exact Hq | reflexivity | rewrite sq_opc; exact Hq]) | reflexivity | (eapply IHv; [ | eassumption]; first [exact Hq | reflexivity | rewrite sq_opc; exact Hq])].
   - (* ONone *) exact I.
   - (* OSome *) intros t IHt. exact IHt.
 Qed.
